@@ -17,9 +17,21 @@ import time
 
 ROOT = os.path.dirname(os.path.dirname(os.path.abspath(__file__)))
 REPO = os.environ.get("VERIF_REPO", "/repo")
-BUILD = os.path.join(ROOT, "build")
-COQ = os.path.join(ROOT, "coq")
+ALT = os.path.realpath(REPO) != "/repo"
+# With VERIF_REPO pointing at a scratch worktree (mutation testing) everything
+# mutable (build dir, regenerated Gen/*.v, .vo files) is private to that tree.
+BUILD = os.path.join(ROOT, "build") if not ALT else \
+    os.path.join(ROOT, "build", "alt_" + os.path.basename(os.path.realpath(REPO)))
+COQ = os.path.join(ROOT, "coq") if not ALT else os.path.join(BUILD, "coq")
 THEORIES = os.path.join(COQ, "theories")
+
+
+def _sync_alt():
+    if ALT:
+        os.makedirs(COQ, exist_ok=True)
+        subprocess.run(["rsync", "-a", "--delete", "--exclude", "theories/Gen/",
+                        "--exclude", "Makefile*", "--exclude", ".Makefile.d",
+                        os.path.join(ROOT, "coq") + "/", COQ + "/"], check=True)
 NCPU = os.cpu_count() or 4
 
 FORBIDDEN = re.compile(
@@ -143,6 +155,7 @@ def coq_make(targets=None, timeout=3000, jobs=NCPU):
     """Full .vo build (never -vos) of the given targets (paths relative to
     coq/, e.g. 'theories/Shachain/Props.vo') or of everything."""
     with Lock("coq"):
+        _sync_alt()
         coq_project()
         cmd = ["make", "-j%d" % jobs, "-k"] + (targets or [])
         rc, out = sh(cmd, cwd=COQ, timeout=timeout)
@@ -366,8 +379,10 @@ class Ctx:
                           ["findings"] if k.get("property") == pid]
         except FileNotFoundError:
             self.known = []
-        os.makedirs(os.path.join(ROOT, "replays"), exist_ok=True)
-        os.makedirs(os.path.join(ROOT, "evidence"), exist_ok=True)
+        # runs against a scratch worktree (VERIF_REPO) keep their outputs private
+        self.outroot = ROOT if not ALT else BUILD
+        os.makedirs(os.path.join(self.outroot, "replays"), exist_ok=True)
+        os.makedirs(os.path.join(self.outroot, "evidence"), exist_ok=True)
         os.makedirs(BUILD, exist_ok=True)
 
     @property
@@ -392,7 +407,7 @@ class Ctx:
                     log(msg)
                 return
         n = len(self.violations)
-        path = os.path.join(ROOT, "replays", "%s-%d-%d.json" % (self.pid, self.seed, n))
+        path = os.path.join(self.outroot, "replays", "%s-%d-%d.json" % (self.pid, self.seed, n))
         with open(path, "w") as f:
             json.dump({"property": self.pid, "seed": self.seed, "tier": self.tier,
                        "kind": kind, "name": name, "signature": signature,
@@ -477,7 +492,7 @@ class Ctx:
         }
         ev["coverage"].setdefault("known_findings_hit", self.known_hits)
         ev["coverage"].setdefault("notes", self.notes)
-        with open(os.path.join(ROOT, "evidence", self.pid + ".json"), "w") as f:
+        with open(os.path.join(self.outroot, "evidence", self.pid + ".json"), "w") as f:
             json.dump(ev, f, indent=1, default=str)
         if self.violations:
             return 1
